@@ -591,6 +591,7 @@ func peerstoreRoundTrip(c *fw.Ctx, r *fw.Rand, dir string) {
 	var peers []peer.ID
 	mix := ""
 	prios := r.Perm(npeers)
+	var shared ma.Multiaddr
 	for i := 0; i < npeers; i++ {
 		pid := gen.Peer(perm[i])
 		peers = append(peers, pid)
@@ -599,6 +600,14 @@ func peerstoreRoundTrip(c *fw.Ctx, r *fw.Rand, dir string) {
 		var addrs []ma.Multiaddr
 		for j := 0; j < na; j++ {
 			addrs = append(addrs, genAddr(r, dns))
+		}
+		// several peers behind one transport address (one name and port, a re-created
+		// identity on the same host): every one of them has its own line
+		if shared != nil && r.Chance(1, 3) {
+			addrs[0] = shared
+			mix += "s"
+		} else if i == 0 {
+			shared = addrs[0]
 		}
 		hA.Peerstore().AddAddrs(pid, addrs, time.Hour)
 		pmA.SetPriority(pid, prios[i]*3+1)
